@@ -17,7 +17,7 @@ import os
 import random
 from typing import Dict, List, Tuple
 
-from .. import bmd, hexref
+from .. import bmd, examples, hexref
 from ..common import Ctx, MachineryError
 from ..gradelib import force_schedule
 from ..renderlib import vdist, vsub, vadd, vmul, vcross, vnorm, vdot
@@ -320,3 +320,4 @@ def run(ctx: Ctx) -> None:
     rng = random.Random(ctx.seed + 4)
     lattice_configs(ctx, rng, 400 if ctx.tier == "quick" else 4000)
     shape_records(ctx, rng, 40 if ctx.tier == "quick" else 300)
+    examples.judge_examples(ctx, "C04")     # SizesJudge SharedSeq on the example scripts' dictionaries
